@@ -89,6 +89,8 @@ def _marker(layer_name: str, obj: J) -> str:
     # deliberately re-stated here (the reference must not depend on the generator's helper)
     if obj.get("twin"):
         return "twin/%s/%s" % (obj["cat"], obj["name"])
+    if obj.get("ref"):  # DIAG-COMM-REF: the named layer's object, local here as well
+        return "%s/%s/%s" % (obj["ref"], obj["cat"], obj["name"])
     return "%s/%s/%s" % (layer_name, obj["cat"], obj["name"])
 
 
